@@ -274,6 +274,13 @@ class Run:
 
 
 def _stable_name(n):
+    """Baseline granularity: contract clause names only - the [path/shape label] is dropped and
+    obligations that mirror code structure (asserts, callee preconditions, raises) are folded
+    into one name per function, so harmless refactorings do not change the baseline."""
+    import re
+    n = re.sub(r"\[.*\]\.", ".", n)
+    n = re.sub(r"\.[A-Za-z_0-9]+\.(assert|call-pre|no-raise)$", ".code-obligations", n)
+    n = re.sub(r"\.(assert|call-pre|no-raise)$", ".code-obligations", n)
     return n
 
 
